@@ -809,8 +809,15 @@ LITS_DOC = """(* Gen/Gen_Lits.v  GENERATED by tools/translate.py from the source
      I_<id> : list N       the int constants (bool excluded; a negative number  -3  appears as 3),
                            emitted only when there is at least one.
      F_<id> : list bytes   the float constants as Python repr text, only when there is at least one.
+     D_<id> : list (bytes * bytes)   (parameter name, default) for the parameters of a def that have a default,
+                           in signature order; a constant default is written as Python's repr (True, None, 'xml',
+                           830), any other as its source text (PORT_NETCONF_DEFAULT, operations.RaiseMode.ALL);
+                           only when there is at least one.
+     R_<id> : list bytes   the references to named constants, as text and in source order: every maximal dotted
+                           name in load position whose last component is UPPER_CASE (e.g. "operations.RaiseMode.ALL",
+                           "MSG_DELIM", "PORT_NETCONF_DEFAULT"; parameter defaults included), only when there is one.
      <id> = key with every character outside [A-Za-z0-9_] replaced by _  (the translator fails when two keys collide).
-   Tables:  fn_lits : list (bytes * list bytes),  fn_nums : list (bytes * list N),  fn_flts  (key, value)
+   Tables:  fn_lits : list (bytes * list bytes),  fn_nums : list (bytes * list N),  fn_flts, fn_refs, fn_defaults  (key, value)
    and  fn_lits_of key : option (list bytes),  fn_nums_of key : option (list N).
    A theorem  L_<id> = [model constants ...]  in coq/GenProps ties the literals a hand-written model
    copied to the ones the function has now; a function that disappeared makes L_<id> undefined. *)
@@ -863,6 +870,37 @@ def harvest(path, nodes, skip=()):
     flts = [repr(v) for _, v in found if isinstance(v, float)]
     return strs, ints, flts
 
+def dotted_name(n):
+    if isinstance(n, ast.Name): return n.id
+    if isinstance(n, ast.Attribute):
+        b = dotted_name(n.value)
+        return None if b is None else b + '.' + n.attr
+    return None
+
+def is_const_name(s):
+    return len(s) > 1 and s == s.upper() and s[0].isalpha() and s.replace('_', '').isalnum()
+
+def harvest_refs(nodes, skip=()):
+    """The references to named constants below the given nodes, in source order: every maximal dotted name
+    (a.b.C or C) in load position whose last component is written in UPPER_CASE (two characters or more), as text."""
+    skip = set(id(x) for x in skip)
+    found = []
+    def visit(n):
+        if id(n) in skip or is_bare_string(n) or is_log_call(n):
+            return
+        if isinstance(n, (ast.Name, ast.Attribute)) and isinstance(n.ctx, ast.Load):
+            d = dotted_name(n)
+            if d is not None:
+                if is_const_name(d.split('.')[-1]):
+                    found.append(((n.lineno, n.col_offset, len(found)), d))
+                return
+        for c in ast.iter_child_nodes(n):
+            visit(c)
+    for n in nodes:
+        visit(n)
+    found.sort(key=lambda t: t[0])
+    return [d for _, d in found]
+
 def fn_parts(fn):
     """The ast nodes of a def / lambda whose constants are harvested: parameter defaults, then body."""
     a = fn.args
@@ -912,6 +950,38 @@ def scopes_of(path, tree, mk):
     add_scope(mk, tree.body, '__module__', 1)
     return out
 
+def signature_defaults(path, tree, mk):
+    """key -> [(parameter name, text of its default)] for the def statements scopes_of gives a key (not lambdas):
+    a constant is written as Python's repr (True, None, 'xml', 830), anything else as ast.unparse gives it
+    (PORT_NETCONF_DEFAULT, operations.RaiseMode.ALL)."""
+    out = {}
+    def text(d):
+        return repr(d.value) if isinstance(d, ast.Constant) else ast.unparse(d)
+    def add_scope(prefix, body):
+        seen = {}
+        def fresh(name):
+            seen[name] = seen.get(name, 0) + 1
+            return name if seen[name] == 1 else '%s#%d' % (name, seen[name])
+        def one(st):
+            a = st.args
+            pos = a.posonlyargs + a.args
+            rows = [(p.arg, text(d)) for p, d in zip(pos[len(pos) - len(a.defaults):], a.defaults)]
+            rows += [(p.arg, text(d)) for p, d in zip(a.kwonlyargs, a.kw_defaults) if d is not None]
+            out['%s.%s' % (prefix, fresh(st.name))] = rows
+        for st in body:
+            if isinstance(st, (ast.FunctionDef, ast.AsyncFunctionDef)):
+                one(st)
+            elif (isinstance(st, ast.Assign) and len(st.targets) == 1 and isinstance(st.targets[0], ast.Name)
+                  and isinstance(st.value, ast.Lambda)):
+                fresh(st.targets[0].id)
+            elif isinstance(st, ast.ClassDef):
+                add_scope('%s.%s' % (prefix, fresh(st.name)), st.body)
+            elif not isinstance(st, (ast.Import, ast.ImportFrom)):
+                for sub in defs_below(st):
+                    one(sub)
+    add_scope(mk, tree.body)
+    return out
+
 def ident_of(key):
     return ''.join(c if (c.isalnum() and c.isascii()) or c == '_' else '_' for c in key)
 
@@ -921,14 +991,15 @@ def cq_nlist(ns):
 def gen_lits(repo):
     out = [LITS_DOC, 'From NC Require Import Model.Base.\n']
     idents = {}
-    lits_tab, nums_tab, flts_tab = [], [], []
+    lits_tab, nums_tab, flts_tab, refs_tab, dfl_tab = [], [], [], [], []
     for f in lit_files(repo):
         tree = parse(f)
         mk = modkey(repo, f)
         out.append('(* ---- %s *)' % os.path.relpath(f, repo))
+        defaults_of = signature_defaults(f, tree, mk)
         for key, nodes, skip, line in scopes_of(f, tree, mk):
             strs, ints, flts = harvest(f, nodes, skip)
-            if key.endswith(('.__module__', '.__class__')) and not (strs or ints or flts):
+            if key.endswith(('.__module__', '.__class__')) and not (strs or ints or flts or harvest_refs(nodes, skip)):
                 continue
             idn = ident_of(key)
             if idn in idents:
@@ -944,9 +1015,19 @@ def gen_lits(repo):
             if flts:
                 out.append('Definition F_%s : list bytes := %s.' % (idn, cq_bytes_list(flts)))
                 flts_tab.append('(%s, F_%s)' % (cq_bytes(key), idn))
+            dfl = defaults_of.get(key)
+            if dfl:
+                out.append('Definition D_%s : list (bytes * bytes) :=\n  %s.' % (idn, cq_pairs(dfl)))
+                dfl_tab.append('(%s, D_%s)' % (cq_bytes(key), idn))
+            refs = harvest_refs(nodes, skip)
+            if refs:
+                out.append('Definition R_%s : list bytes :=\n  %s.' % (idn, cq_bytes_list(refs)))
+                refs_tab.append('(%s, R_%s)' % (cq_bytes(key), idn))
     out.append('\nDefinition fn_lits : list (bytes * list bytes) :=\n  %s.' % cq_list(lits_tab, '(bytes * list bytes)'))
     out.append('Definition fn_nums : list (bytes * list N) :=\n  %s.' % cq_list(nums_tab, '(bytes * list N)'))
     out.append('Definition fn_flts : list (bytes * list bytes) :=\n  %s.' % cq_list(flts_tab, '(bytes * list bytes)'))
+    out.append('Definition fn_defaults : list (bytes * list (bytes * bytes)) :=\n  %s.' % cq_list(dfl_tab, '(bytes * list (bytes * bytes))'))
+    out.append('Definition fn_refs : list (bytes * list bytes) :=\n  %s.' % cq_list(refs_tab, '(bytes * list bytes)'))
     out.append('Definition fn_lits_of (k : bytes) : option (list bytes) := dict_get k fn_lits.')
     out.append('Definition fn_nums_of (k : bytes) : option (list N) := dict_get k fn_nums.')
     return '\n'.join(out) + '\n'
